@@ -2,6 +2,7 @@ package rules
 
 import (
 	"sort"
+	"strings"
 
 	"verif/checker/core"
 
@@ -36,7 +37,7 @@ func (fi famInstr) Top() ssa.Instruction {
 
 func (c *Ctx) isRole(fn *ssa.Function) bool {
 	for _, f := range c.roles {
-		if f == fn {
+		if f == fn && f != nil {
 			return true
 		}
 	}
@@ -249,7 +250,17 @@ func soleCaller(fn *ssa.Function) ssa.CallInstruction {
 // liftTo returns the instruction of function fn (or of a closure nested in fn) that stands for i:
 // i itself, or the call site through which the helper containing i is entered (climbing sole callers).
 func liftTo(i ssa.Instruction, fn *ssa.Function) ssa.Instruction {
-	for hops := 0; hops < 4; hops++ {
+	for hops := 0; hops < 6; hops++ {
+		if i.Parent() == fn {
+			return i
+		}
+		// the body of a range-over-func loop runs where the loop stands: the call of the iterator in the parent
+		if body := i.Parent(); body.Parent() != nil && isRangeFuncBody(body) {
+			if at := rangeFuncCall(body); at != nil {
+				i = at
+				continue
+			}
+		}
 		for f := i.Parent(); f != nil; f = f.Parent() {
 			if f == fn {
 				return i
@@ -342,4 +353,25 @@ func alwaysExecuted(a ssa.Instruction) bool {
 		}
 	}
 	return true
+}
+
+func isRangeFuncBody(fn *ssa.Function) bool {
+	return fn != nil && fn.Parent() != nil && strings.Contains(fn.Synthetic, "range-over-func")
+}
+
+// rangeFuncCall: the instruction of the parent that runs the range-over-func body (the call of the iterator with the body closure).
+func rangeFuncCall(body *ssa.Function) ssa.Instruction {
+	var at ssa.Instruction
+	core.EachInstr(body.Parent(), func(i ssa.Instruction) {
+		call, ok := i.(ssa.CallInstruction)
+		if !ok {
+			return
+		}
+		for _, a := range call.Common().Args {
+			if mc, ok := a.(*ssa.MakeClosure); ok && mc.Fn == body {
+				at = i
+			}
+		}
+	})
+	return at
 }
